@@ -5,11 +5,24 @@
 -/
 import Cctz.Model.Ck
 import Cctz.Model.Civil
+import Cctz.Model.Fixed
+import Cctz.Model.Posix
+import Cctz.Model.Tz
+import Cctz.Model.Split
 
 open Cctz
 
+structure ZEntry where
+  zone : Tz.Zone
+  btHint : Nat := 0
+  mtHint : Nat := 0
+
 structure DState where
-  dummy : Unit := ()
+  zones : List (String × ZEntry) := []
+
+def DState.find (st : DState) (id : String) : Option ZEntry := (st.zones.find? (·.1 == id)).map (·.2)
+def DState.set (st : DState) (id : String) (e : ZEntry) : DState :=
+  { st with zones := (id, e) :: st.zones.filter (·.1 != id) }
 
 def flagStr (f : Flags) : String :=
   "UB" ++ (if f.ovf then " ovf" else "") ++ (if f.oob then " oob" else "")
@@ -97,6 +110,138 @@ def civilOp (toks : List String) : Option String :=
       | _ => none
   | _ => none
 
+/-! ### fixed-offset names, POSIX-TZ strings, split/join -/
+
+def optStr (o : Option Int) : String := match o with | some v => toString v | none => "U"
+
+def showPosixTransition (t : Posix.Transition) : String :=
+  let d := match t.date with
+    | none => "U U U U"
+    | some ⟨.J, a, _, _⟩ => s!"J {a} - -"
+    | some ⟨.N, a, _, _⟩ => s!"N {a} - -"
+    | some ⟨.M, a, b, c⟩ => s!"M {a} {b} {c}"
+  d ++ " " ++ optStr t.time
+
+def showPosix (r : Option Posix.TimeZone) : String :=
+  match r with
+  | none => "fail"
+  | some z =>
+    if z.dstAbbr.isEmpty then
+      s!"ok {Bytes.toHex z.stdAbbr} {optStr z.stdOffset} -"
+    else
+      s!"ok {Bytes.toHex z.stdAbbr} {optStr z.stdOffset} {Bytes.toHex z.dstAbbr} {optStr z.dstOffset} {showPosixTransition z.dstStart} {showPosixTransition z.dstEnd}"
+
+def miscOp (toks : List String) : Option String :=
+  match toks with
+  | ["fixname", off] => do
+      let off ← off.toInt?
+      some (showCk (Fixed.toName off) Bytes.toHex)
+  | ["fixabbr", off] => do
+      let off ← off.toInt?
+      some (showCk (Fixed.toAbbr off) Bytes.toHex)
+  | ["fixfrom", hex] => do
+      let b ← Bytes.ofHex hex
+      some (match Fixed.fromName b with | some v => toString v | none => "none")
+  | ["posix", hex] => do
+      let b ← Bytes.ofHex hex
+      some (showPosix (Posix.parsePosixSpec b))
+  | ["split", n, d, c, _rep] => do
+      let n ← n.toInt?; let d ← d.toInt?; let c ← c.toInt?
+      some (showCk (do
+        let (sec, sub) ← Split.splitSeconds n d c
+        let fs ← Split.subToFemto n d sub
+        pure (sec, sub, fs)) fun (sec, sub, fs) => s!"{sec} {sub} {fs}")
+  | ["joinc", num, lo, hi, sec, _rep] => do
+      let num ← num.toInt?; let lo ← lo.toInt?; let hi ← hi.toInt?; let sec ← sec.toInt?
+      some (match (if num == 1 then Split.joinSecondsRep lo hi sec else Split.joinCoarse num lo hi sec) with
+            | some v => s!"ok {v}" | none => "false")
+  | ["joinf", den, sec, fs] => do
+      let den ← den.toInt?; let sec ← sec.toInt?; let fs ← fs.toInt?
+      some (showCk (Split.joinFine den sec fs) fun v => s!"ok {v}")
+  | _ => none
+
+/-! ### zones -/
+
+def showAbs (a : Tz.AbsLookup) : String :=
+  s!"{showFields a.cs} {a.offset} {b2i a.isDst} {Bytes.toHex a.abbr}"
+
+def kindStr : Tz.Kind → String
+  | .unique => "UNIQUE" | .skipped => "SKIPPED" | .repeated => "REPEATED"
+
+def showCivilLookup (c : Tz.CivilLookup) : String := s!"{kindStr c.kind} {c.pre} {c.trans} {c.post}"
+
+def showTransitionOpt (o : Option (Fields × Fields)) : String :=
+  match o with
+  | none => "none"
+  | some (f, t) => s!"{showFields f} {showFields t}"
+
+def zoneOp (st : DState) (toks : List String) : Option (DState × String) :=
+  match toks with
+  | ["zone", id, mode, hex] => do
+      let b ← Bytes.ofHex hex
+      let cfg : Tz.LoadCfg := { skipPastEndOk := mode != "strict" }
+      let r := Tz.load cfg b
+      if r.flags.any then some (st, flagStr r.flags)
+      else match r.val with
+        | .fail => some (st, "fail")
+        | .tooLarge => some (st, "toolarge")
+        | .ok z => some (st.set id { zone := z },
+            s!"ok {z.transitions.size} {z.types.size} {Bytes.toHex z.futureSpec}")
+  | ["fixzone", id, off] => do
+      let off ← off.toInt?
+      -- fixed_time_zone(off): FixedOffsetToName, then Load(name) -> ResetToBuiltinUTC(FixedOffsetFromName)
+      let name := Fixed.toName off
+      if name.flags.any then some (st, flagStr name.flags)
+      else match Fixed.fromName name.val with
+        | none => some (st, "fail")
+        | some o =>
+          let z := Tz.resetToBuiltinUTC o
+          if z.flags.any then some (st, flagStr z.flags)
+          else some (st.set id { zone := z.val }, s!"ok {Bytes.toHex name.val}")
+  | ["namezone", id, hex] => do
+      -- load_time_zone(name) for a name that needs no data: only fixed-offset names succeed
+      let b ← Bytes.ofHex hex
+      match Fixed.fromName b with
+      | none => some (st, "fail")
+      | some o =>
+        let z := Tz.resetToBuiltinUTC o
+        if z.flags.any then some (st, flagStr z.flags)
+        else some (st.set id { zone := z.val }, s!"ok {o}")
+  | ["bt", id, t] => do
+      let t ← t.toInt?
+      let e ← st.find id
+      let r := Tz.breakTime e.zone e.btHint t
+      some (st.set id { e with btHint := r.val.2 }, showCk r fun (a, _) => showAbs a)
+  | "mt" :: id :: rest => do
+      let e ← st.find id
+      match ← ints rest with
+      | [y, m, d, hh, mm, ss] =>
+        let r := (Civil.civilNew .second y m d hh mm ss).bind' fun cs => Tz.makeTime e.zone e.mtHint cs
+        some (st.set id { e with mtHint := r.val.2 }, showCk r fun (c, _) => showCivilLookup c)
+      | _ => none
+  | "cv" :: id :: rest => do
+      let e ← st.find id
+      match ← ints rest with
+      | [y, m, d, hh, mm, ss] =>
+        let r := (Civil.civilNew .second y m d hh mm ss).bind' fun cs => Tz.convert e.zone e.mtHint cs
+        some (st.set id { e with mtHint := r.val.2 }, showCk r fun (c, _) => toString c)
+      | _ => none
+  | ["nt", id, t] => do
+      let t ← t.toInt?
+      let e ← st.find id
+      some (st, showCk (Tz.nextTransition e.zone t) showTransitionOpt)
+  | ["pt", id, t] => do
+      let t ← t.toInt?
+      let e ← st.find id
+      some (st, showCk (Tz.prevTransition e.zone t) showTransitionOpt)
+  | ["hints", id, a, b] => do
+      -- test control: force the hidden hint state of a zone (the harness cannot; it replays history)
+      let a ← a.toNat?; let b ← b.toNat?
+      let e ← st.find id
+      some (st.set id { e with btHint := a, mtHint := b }, "ok")
+  | ["drop", id] => some ({ st with zones := st.zones.filter (·.1 != id) }, "ok")
+  | _ => none
+
 def handle (st : DState) (line : String) : DState × String :=
   let toks := (line.trimAscii.toString.splitOn " ").filter (· ≠ "")
   match toks with
@@ -104,7 +249,13 @@ def handle (st : DState) (line : String) : DState × String :=
   | _ =>
     match civilOp toks with
     | some r => (st, r)
-    | none => (st, "bad-op")
+    | none =>
+      match miscOp toks with
+      | some r => (st, r)
+      | none =>
+        match zoneOp st toks with
+        | some (st', r) => (st', r)
+        | none => (st, "bad-op")
 
 partial def loop (hin : IO.FS.Stream) (hout : IO.FS.Stream) (st : DState) : IO Unit := do
   let line ← hin.getLine
